@@ -13,7 +13,7 @@
 From ClapModel Require Import Base.Bytes Base.Machine Parse.Cmd Parse.Build Parse.Valid Parse.Matcher Parse.Errors Parse.Validator Parse.Parser.
 From ClapModel Require Import ParseProofs.Spelling.
 From ClapModel Require ParseProofs.Dispatch ParseProofs.ChainWide Complete.EngineProofs Complete.EngineLevel.
-From ClapModel Require Import Gen.HelpTables Help.UsageModel Help.HelpModel Help.HelpReqs Help.HelpProofs Help.HelpLevel Help.HelpSpecVals Help.HelpDispatch Help.HelpUsage Help.HelpGlobals Help.HelpTemplate Help.HelpHeadings Help.HelpRefsBuild Help.HelpFlagGen Help.HelpUnbuilt Help.HelpChainWide.
+From ClapModel Require Import Gen.HelpTables Help.UsageModel Help.HelpModel Help.HelpReqs Help.HelpProofs Help.HelpLevel Help.HelpSpecVals Help.HelpDispatch Help.HelpUsage Help.HelpGlobals Help.HelpTemplate Help.HelpHeadings Help.HelpRefsBuild Help.HelpFlagGen Help.HelpUnbuilt Help.HelpChainWide Help.HelpSubcommand.
 From RecordUpdate Require Import RecordSet.
 Import RecordSetNotations.
 Open Scope N_scope.
@@ -627,3 +627,88 @@ Theorem C12_help_wide_satisfiable :
        /\ parse_top hw_root (Dispatch.b1 112 :: hw_toks ++ tok_help_short :: [hw_bogus]) = OErr (help_err lv false).
 Proof. exact hw_hyps. Qed.
 Print Assumptions C12_help_wide_satisfiable.
+
+(** ---- fourth pass: `help <path>`, the help SUBCOMMAND ---- *)
+
+(** [parse_help_subcommand] with the lookup as a parameter and [_build_subcommand(&sc_name).unwrap()] visible
+    ([help_walk_with lk]: [None] = the [unwrap] panics).  With clap's lookup ([lookup_clap] =
+    [find_subcommand(cmd).map(|sc| sc.get_name())]: name or alias, exact, canonicalised to the name) the [unwrap] is
+    dead for EVERY command and word list, and the walk is the parser model's [help_walk] *)
+Theorem C12_help_walk_unwrap_dead : forall names sc, help_walk_with lookup_clap sc names = Some (help_walk sc names).
+Proof. exact help_walk_unwrap_dead. Qed.
+Print Assumptions C12_help_walk_unwrap_dead.
+
+(** what makes a lookup safe: it returns only NAMES of subcommands of the level *)
+Theorem C12_help_walk_lookup_sound : forall lk, lookup_sound lk -> forall names sc, help_walk_with lk sc names <> None.
+Proof. exact help_walk_with_total. Qed.
+Print Assumptions C12_help_walk_lookup_sound.
+
+(** ... and the two lookups that drop the canonicalisation panic: the typed text (`help delete`, [delete] an alias of
+    [remove]) and the token loop's [possible_subcommand], which under [infer_subcommands] returns the TEXT of the alias
+    a word is a prefix of (`help del`); clap's lookup answers the first with the help of [remove], the second with
+    InvalidSubcommand `del` *)
+Theorem C12_help_walk_text_panics :
+  let c := build_self (ChainWide.ex_wide false) in
+  find_subcommand c ChainWide.w_delete <> None /\ help_walk_with lookup_text c [ChainWide.w_delete] = None
+  /\ exists lv, help_walk_with lookup_clap c [ChainWide.w_delete] = Some (help_err lv true) /\ c_name lv = ChainWide.w_remove.
+Proof. exact help_walk_text_panics. Qed.
+Print Assumptions C12_help_walk_text_panics.
+
+Theorem C12_help_walk_infer_panics :
+  let c := build_self (ChainWide.ex_wide false) in
+  ChainWide.infer_list c [100; 101; 108] = [ChainWide.w_delete] /\ help_walk_with lookup_infer c [[100; 101; 108]] = None
+  /\ help_walk_with lookup_clap c [[100; 101; 108]] = Some (unknown_sub_err c [100; 101; 108]).
+Proof. exact help_walk_infer_panics. Qed.
+Print Assumptions C12_help_walk_infer_panics.
+
+(** the whole line: behind a chain with arguments ([hsplit]) a token that selects the generated [help] subcommand
+    ([help_sel]: [possible_subcommand] answers `help` -- the word itself or, with [infer_subcommands], a prefix of it --
+    and the help subcommand is not disabled) and a path of names / ALIASES: the DisplayHelp error (long form) of the
+    level the path leads to, which is the level [p_level_walk] reaches from the root by [ns ++ path] *)
+Theorem C12_help_subcommand_level : forall c0 bin toks ns lv pos tok path lv',
+  is_set s_no_binary_name c0 = false -> c_bin_name c0 <> None ->
+  valid c0 = true -> hsplit (build_self c0) toks ns lv pos -> help_sel lv tok ->
+  p_level_walk lv path = Some lv' ->
+  parse_top c0 (bin :: toks ++ tok :: path) = OErr (help_err lv' true)
+  /\ p_level_walk (build_self c0) (ns ++ path) = Some lv'
+  /\ e_kind (help_err lv' true) = EDisplayHelp /\ e_cmd (help_err lv' true) = opt_default [] (c_about lv')
+  /\ e_long (help_err lv' true) = true.
+Proof. exact help_sub_level. Qed.
+Print Assumptions C12_help_subcommand_level.
+
+(** a word of the path that is no name or alias of the level reached -- a proper prefix included, with or without
+    [infer_subcommands] -- is reported: InvalidSubcommand naming that word, for the level reached so far; never a panic *)
+Theorem C12_help_subcommand_unknown : forall c0 bin toks ns lv pos tok known w more lvk,
+  is_set s_no_binary_name c0 = false -> c_bin_name c0 <> None ->
+  valid c0 = true -> hsplit (build_self c0) toks ns lv pos -> help_sel lv tok ->
+  p_level_walk lv known = Some lvk -> find_subcommand lvk w = None ->
+  parse_top c0 (bin :: toks ++ tok :: known ++ w :: more) = OErr (unknown_sub_err lvk w).
+Proof. exact help_sub_unknown. Qed.
+Print Assumptions C12_help_subcommand_unknown.
+
+(** non-vacuity: `p --verbose help sy q` (through the alias `sy`, help of [q]); `p -g x a he delete` ([he] an inferred
+    prefix of `help`, [delete] an alias: help of [remove]) and `p -g x a he del` (InvalidSubcommand `del` although
+    [del] is a unique prefix of the alias and [infer_subcommands] is on) *)
+Theorem C12_help_subcommand_satisfiable :
+  is_set s_no_binary_name hw_root = false /\ c_bin_name hw_root <> None /\ valid hw_root = true
+  /\ hsplit (build_self hw_root) [Chain.dd Chain.w_verbose] [] (build_self hw_root) 1
+  /\ help_sel (build_self hw_root) s_help
+  /\ exists lv', p_level_walk (build_self hw_root) [[115; 121]; Dispatch.b1 113] = Some lv' /\ c_name lv' = Dispatch.b1 113
+       /\ parse_top hw_root (Dispatch.b1 112 :: [Chain.dd Chain.w_verbose] ++ s_help :: [[115; 121]; Dispatch.b1 113])
+          = OErr (help_err lv' true).
+Proof. exact hs_hyps_alias. Qed.
+Print Assumptions C12_help_subcommand_satisfiable.
+
+Theorem C12_help_subcommand_infer_example :
+  is_set s_no_binary_name hs_wide = false /\ c_bin_name hs_wide <> None /\ valid hs_wide = true
+  /\ hsplit (build_self hs_wide) [[45; 103]; Dispatch.b1 120; Dispatch.b1 97] [] (build_self hs_wide) 2
+  /\ help_sel (build_self hs_wide) [104; 101]
+  /\ (exists lv', p_level_walk (build_self hs_wide) [ChainWide.w_delete] = Some lv' /\ c_name lv' = ChainWide.w_remove
+       /\ parse_top hs_wide (Dispatch.b1 112 :: [[45; 103]; Dispatch.b1 120; Dispatch.b1 97] ++ [104; 101] :: [ChainWide.w_delete])
+          = OErr (help_err lv' true))
+  /\ find_subcommand (build_self hs_wide) [100; 101; 108] = None
+  /\ ChainWide.infer_list (build_self hs_wide) [100; 101; 108] = [ChainWide.w_delete]
+  /\ parse_top hs_wide (Dispatch.b1 112 :: [[45; 103]; Dispatch.b1 120; Dispatch.b1 97] ++ [104; 101] :: [] ++ [100; 101; 108] :: [])
+     = OErr (unknown_sub_err (build_self hs_wide) [100; 101; 108]).
+Proof. exact hs_hyps_infer. Qed.
+Print Assumptions C12_help_subcommand_infer_example.
